@@ -179,5 +179,36 @@ func RunProperty(id string, p *ir.Program, r *report.R) bool {
 	}
 	fn(p, r)
 	errorRegression(p, r, id)
+	if files := anchorFiles(id); files != nil {
+		errorIdentity(p, r, files)
+	}
 	return true
+}
+
+// anchorFiles reads the anchor file list of a property from properties.jsonl.
+func anchorFiles(id string) map[string]bool {
+	f, err := os.Open(filepath.Join(VerifDir, "properties.jsonl"))
+	if err != nil {
+		return nil
+	}
+	defer f.Close()
+	sc := bufio.NewScanner(f)
+	sc.Buffer(make([]byte, 1<<20), 1<<24)
+	for sc.Scan() {
+		var pr struct {
+			ID      string `json:"id"`
+			Anchors struct {
+				Files []string `json:"files"`
+			} `json:"anchors"`
+		}
+		if json.Unmarshal(sc.Bytes(), &pr) != nil || pr.ID != id {
+			continue
+		}
+		m := map[string]bool{}
+		for _, x := range pr.Anchors.Files {
+			m[x] = true
+		}
+		return m
+	}
+	return nil
 }
